@@ -148,6 +148,8 @@ func (cx *Ctx) oracle(name string, rs []JobResult) (violated bool, key, what, fi
 		return cx.oracleReal(rs)
 	case "c01.returns":
 		return cx.oracleReturns(rs)
+	case "c01.afterabort":
+		return cx.oracleAfterAbort(rs)
 	case "c15.isolation", "c15.race", "c15.sim":
 		return cx.oracleC15(rs)
 	case "c15.realrace":
